@@ -1,7 +1,7 @@
 (* Conc/Instances.v — the progress theorem instantiated on the skeletons regenerated from /repo (coq/Gen/Skeletons.v).
    Every statement is about ANY number of goroutines, each running ANY function of the named component. *)
 From Coq Require Import List Bool.
-From LE Require Import Conc.RWMutex Conc.Skeleton Conc.Progress Gen.Skeletons.
+From LE Require Import Conc.RWMutex Conc.Skeleton Conc.Progress Conc.Atomic Gen.Skeletons.
 Import ListNotations.
 
 Definition progress3 (ops : list prog) : Prop :=
@@ -38,9 +38,17 @@ Theorem blockCache_progress : progress2 ops_blockCache.
 Proof. apply progress2_of; vm_compute; reflexivity. Qed.
 Theorem certificate_pool_progress : progress2 ops_Pool.
 Proof. apply progress2_of; vm_compute; reflexivity. Qed.
-(* subscribers are live: sends to them are opaque calls (assumption listed by the translator) *)
-Theorem event_emitter_progress : progress2 ops_EventEmitter.
+(* the emitter and its subscriptions.  No assumption about subscribers: a plain channel send is a Block in the skeleton
+   (the pre-fix Publish - Lock; for ... out <- msg; Unlock - is therefore NOT a safe program); the only operation that may
+   wait for a subscriber is subscription.send's select{send, <-done}, a Guarded step taken under the subscription's send
+   mutex only.  (1) all emitter/subscription code is safe and free of Block: finished or can step;  (2) the emitter lock
+   rwMutex is never held at any operation that may wait (Block or Guarded), in any function of the package. *)
+Definition emitter_ops : list prog := ops_EventEmitter ++ ops_subscription.
+Theorem event_emitter_progress : progress2 emitter_ops.
 Proof. apply progress2_of; vm_compute; reflexivity. Qed.
+Theorem emitter_lock_never_held_while_waiting :
+  forallb (never_waits_holding lk_EventEmitter_rwMutex) (emitter_ops ++ ops_event_funcs) = true.
+Proof. vm_compute. reflexivity. Qed.
 Theorem diffdb_progress : progress2 ops_Database.
 Proof. apply progress2_of; vm_compute; reflexivity. Qed.
 (* single-lock readers and the consensus writer together: the scenario of the stress harness *)
@@ -53,7 +61,7 @@ Proof. apply progress3_of; vm_compute; reflexivity. Qed.
 Definition pool_api : list prog :=
   [skel_TransactionPool_Get; skel_TransactionPool_GetAll; skel_TransactionPool_GetProcessable;
    skel_TransactionPool_Add; skel_TransactionPool_Remove; skel_TransactionPool_Subscribe].
-Definition pool_all : list prog := ops_TransactionPool ++ ops_addressTransactions ++ ops_EventEmitter.
+Definition pool_all : list prog := ops_TransactionPool ++ ops_addressTransactions ++ ops_EventEmitter ++ ops_subscription.
 
 (* API calls alone (any number of concurrent callers): no blocking operation at all *)
 Theorem pool_api_progress : progress2 pool_api.
